@@ -10,7 +10,7 @@ CONSTANTS
   THA = 2
   THB = 3
   DETS = {"d1", "d2"}
-  DEV = {"L6", "L7", "L27"}
+  DEV = {"L7"}
   MAXH = 7
   MAXTX = 3
   MAXCHK = 2
